@@ -178,12 +178,24 @@ func (w *Worker) Open(ctx context.Context) (err error) {
 		})
 	}()
 
+	sourceOpened := false
 	for task := range w.FirstTask.Tasks() {
 		err = task.Open(ctx)
 		if err != nil {
 			return cerrors.Errorf("task %s failed to open: %w", task.ID(), err)
 		}
 
+		if !sourceOpened {
+			// The first task is the source task. SourceTask.Close is a no-op (the
+			// worker owns the source's teardown, see tearDownSource), so rolling
+			// back with task.Close alone would leave the source connector open —
+			// and its "connector is running" guard set — when a later task or the
+			// DLQ fails to open. Release it through the worker's own teardown.
+			sourceOpened = true
+			r.Append(func() error {
+				return w.tearDownSource(ctx)
+			})
+		}
 		r.Append(func() error {
 			return task.Close(ctx)
 		})
